@@ -263,7 +263,7 @@ fn exact(rep: &mut Report) {
 fn floats<T: Tier + Dom<M = Sh>>(rep: &mut Report) {
     let axes = alphabet::uv3(rep.thorough());
     let mut rads: Vec<f64> = vec![0.0, 1e-8, -1e-8, PI / 2.0, -PI / 2.0, PI, -PI, 1e3];
-    let jmax = rep.pick(8, 20);
+    let jmax = rep.pick(8, 60);
     for j in 1..=jmax {
         rads.push(0.37 * j as f64 * 20.0 / jmax as f64);
         rads.push(-0.37 * j as f64 * 20.0 / jmax as f64);
